@@ -115,17 +115,25 @@ func drainTable(it sstables.SSTableIteratorI, err error, limit int) scanOut {
 		return scanOut{Err: "Open:" + classifyErr(err)}
 	}
 	var out scanOut
+	// the returned slices are retained until the scan is over and copied only then: an iterator
+	// that hands out a reused buffer would show up as altered earlier results
+	var ks, vs [][]byte
 	for i := 0; i < limit; i++ {
 		k, v, err := it.Next()
 		if err != nil {
 			if !errors.Is(err, sstables.Done) {
 				out.Err = classifyErr(err)
 			}
-			return out
+			break
 		}
-		out.KVs = append(out.KVs, tblKV{K: append([]byte{}, k...), V: append([]byte{}, v...), Nil: v == nil})
+		ks, vs = append(ks, k), append(vs, v)
+		if i == limit-1 {
+			out.Err = "Limit"
+		}
 	}
-	out.Err = "Limit"
+	for i := range ks {
+		out.KVs = append(out.KVs, tblKV{K: append([]byte{}, ks[i]...), V: append([]byte{}, vs[i]...), Nil: vs[i] == nil})
+	}
 	return out
 }
 
